@@ -43,10 +43,17 @@ fn conversions(rep: &mut Report, tier: Tier) {
         rep.states += 1;
         rep.transitions += 1;
         let exp = char::from_u32(n);
-        let r = catch(|| konst::chr::from_u32(n));
+        // compared and rendered as numbers: a `char` outside the scalar values must not reach Debug / UTF-8 encoding
+        let r = catch(|| konst::chr::from_u32(n).map(|c| c as u32));
         rep.outcome(&r.as_ref().ok().map(|x| x.is_some()));
-        if r.as_ref().ok() != Some(&exp) {
-            rep.violation(viol("char-conv", "from_u32", format!("u32|{n}"), format!("chr::from_u32({n:#x})"), format!("{exp:?}"), format!("{r:?}")));
+        if r.as_ref().ok() != Some(&exp.map(|c| c as u32)) {
+            let obs = match &r {
+                Ok(Some(v)) if char::from_u32(*v).is_none() => format!("Ok(Some('\\u{{{v:x}}}')) - not a Unicode scalar value"),
+                Ok(Some(v)) => format!("Ok(Some({:?}))", char::from_u32(*v).unwrap()),
+                Ok(None) => "Ok(None)".to_string(),
+                Err(p) => format!("Err({p:?})"),
+            };
+            rep.violation(viol("char-conv", "from_u32", format!("u32|{n}"), format!("chr::from_u32({n:#x})"), format!("{exp:?}"), obs));
         }
         if exp.is_none() && n < 0x120000 {
             rep.nontrivial(|| format!("from_u32({n:#x}) (not a scalar value)"));
